@@ -159,3 +159,66 @@ Definition w_run (evs : list wev) : wstate := fold_left w_step evs w_init.
 Definition w_hist (s : wstate) : hist := Hist cf (w_subs s) (w_runs s) [] (w_clos s) [].
 
 End Worker.
+
+(* ---- the SPLIT variant (not the code; documents why Close publishes both flags in ONE
+   critical section).  Close first does close(q.stop) — visible to workers and to parked
+   SubmitWait callers — and only in a later step takes q.mu and sets closed = true.
+   [stop_seen]: the stop channel is closed once the Close caller is past that first step.
+   Everything else is the code's step function with "stop" read from [stop_seen] and
+   admission read from [w_closed]. *)
+Section WorkerSplit.
+Variable cf : cfg.
+
+Definition stop_seen (s : wstate) : bool :=
+  match w_close s with CMid _ | CWait _ | CDone => true | _ => false end.
+
+Definition ws_thread_step (s : wstate) (t : nat) (alt : bool) : wstate :=
+  match w_pc s t with
+  | WIdle => s
+  | WLock x st wait =>
+      if w_closed s then w_ret s t x st RClosed
+      else if 0 <? w_slots s then
+        if queue_has_room cf s
+        then w_ret (w_with s (w_slots s - 1) (w_queue s ++ [x])) t x st ROk
+        else s
+      else if wait then w_set_pc s t (WPark x st)
+      else w_ret s t x st RFull
+  | WPark x st =>
+      if alt then (if stop_seen s then w_ret s t x st RClosed else s)
+      else if 0 <? w_slots s then w_set_pc (w_with s (w_slots s - 1) (w_queue s)) t (WLock2 x st)
+      else s
+  | WLock2 x st =>
+      if w_closed s then w_ret (w_with s (release cf (w_slots s)) (w_queue s)) t x st RClosed
+      else if queue_has_room cf s then w_ret (w_with s (w_slots s) (w_queue s ++ [x])) t x st ROk
+      else w_set_pc (w_with s (release cf (w_slots s)) (w_queue s)) t (WLock x st true)
+  end.
+
+Definition ws_worker_step (s : wstate) (i : nat) (alt : bool) : wstate :=
+  if negb (Nat.ltb i (length (w_wk s))) then s else
+  match w_k s i with
+  | KIdle =>
+      if alt then (if stop_seen s then w_set_k s i KDrain else s)
+      else match w_queue s with
+           | x :: r => w_set_k (w_with s (w_slots s) r) i (KGot x false)
+           | [] => s
+           end
+  | _ => w_worker_step cf s i alt
+  end.
+
+Definition ws_step (s0 : wstate) (e : wev) : wstate :=
+  let s := w_tick s0 in
+  match e with
+  | WStep t alt => ws_thread_step s t alt
+  | WWork i alt => ws_worker_step s i alt
+  | WCloseStep =>
+      match w_close s with
+      | CStart cb => w_set_close s (w_closed s) (CMid cb) (w_clos s)   (* close(q.stop) *)
+      | CMid cb => w_set_close s true (CWait cb) (w_clos s)            (* mu.Lock; closed = true; mu.Unlock *)
+      | _ => w_step cf s0 e
+      end
+  | _ => w_step cf s0 e
+  end.
+
+Definition ws_run (evs : list wev) : wstate := fold_left ws_step evs (w_init cf).
+
+End WorkerSplit.
